@@ -670,6 +670,8 @@ def oracle(case):
         return [(f"C07/hybrid36/{r[0]}", f"the hybrid-36 code ended with {r} on this case")]
     if kind == "altloc":
         return _oracle_alt(case)
+    if kind == "oracle-malformed-file":
+        return _oracle_malformed_file(case)
     if "ops" not in case or not any(op.startswith("write") for op in case["ops"]):
         return []
     from biotite.structure.io.pdb import PDBFile
@@ -680,10 +682,12 @@ def oracle(case):
     if S.get("box") is None and extra.get("box") is not None:
         S = dict(S, box=[[f32(v) for v in row] for row in extra["box"]])
     hard, soft = limits(S)
-    v = [] if case.get("big") else _oracle_purity(S, extra)
+    # the two expensive side oracles share the cases: purity on two thirds, entry points / spellings on the other third
+    bucket = int(signature(case)[:4], 16) % 3
+    v = [] if (case.get("big") or (bucket == 0 and not case.get("force_api"))) else _oracle_purity(S, extra)
     if v:
         return v
-    if case.get("big") is None and (case.get("force_api") or int(signature(case)[:4], 16) % 2 == 0):
+    if case.get("big") is None and (case.get("force_api") or bucket == 0):
         v = _oracle_api(S, extra)
         if v:
             return v
@@ -779,8 +783,21 @@ def oracle(case):
         if hard:
             v.append((f"C07/accepted/{hard[0]}", f"input exceeding a column was written without an error: {hard}"))
             return v
-        if soft:
+        if soft and set(soft) != {"el-empty"}:
+            if "box-degenerate" in soft:
+                cr = [l for l in f.lines if l.startswith("CRYST1")]
+                try:
+                    ok = len(cr) == 1 and len(cr[0]) == 80 and all(
+                        abs(float(cr[0][a_ - 1:b_]) - w_) <= 0.00051 + 2e-7 * w_ for (a_, b_), w_ in zip(((7, 15), (16, 24), (25, 33)), _cell_ref(S["box"])[:3]))
+                except ValueError:
+                    ok = False
+                if not ok:
+                    v.append(("C07/cryst1/degenerate-box", f"CRYST1 {cr!r} for the degenerate box {S['box']}"))
             return v
+        if soft:
+            # an empty element is written as blanks; the reader fills in its guess from the atom name (documented, with a warning)
+            from biotite.structure import infer_elements
+            S = dict(S, atoms=[dict(a, el=a["el"] if a["el"] else str(infer_elements([a["name"]])[0])) for a in S["atoms"]])
         # --- round trip (within the limits)
         try:
             st = _read_back(f.lines, S["flags"]["bonds"])
@@ -894,7 +911,9 @@ def _oracle_purity_impl(S, extra, step):
     with warnings.catch_warnings():
         warnings.simplefilter("ignore")
         step[0] = "repeated-export"
-        for seq in ((False, True), (True, False), (False, False), (True, True)):
+        pick = len(S["atoms"]) + len(S["models"]) + len(S["bonds"]) + sum(map(int, S["flags"].values()))      # deterministic per case
+        seqs = ((False, True), (True, False), (False, False), (True, True))
+        for seq in (seqs[pick % 4], seqs[(pick + 1) % 4]):
             arr = build_array(S, extra)
             before = _snapshot(arr)
             for stepno, h36 in enumerate(seq):
@@ -920,7 +939,7 @@ def _oracle_purity_impl(S, extra, step):
         variants.append({"atoms": S["atoms"] + S["atoms"][:1], "models": [m + m[:1] for m in S["models"]] + [S["models"][0] + S["models"][0][:1]],
                          "flags": dict(S["flags"], bonds=False, id=False), "box": None, "bonds": []})
         fields4 = ["atom_id", "b_factor", "occupancy", "charge"]
-        for B in variants:
+        for B in variants[pick % len(variants):][:1]:
             for first, second in ((S, B), (B, S)):
                 f = PDBFile()
                 try:
@@ -959,7 +978,8 @@ def _oracle_purity_impl(S, extra, step):
         lines0 = list(f.lines)
         fields = ["atom_id", "b_factor", "occupancy", "charge"]
         _setup_ccd()
-        for kwargs in ({"model": None}, {"model": 1}, {"model": -1, "altloc": "all"}, {"model": None, "altloc": "occupancy"}):
+        kw_all = ({"model": None}, {"model": 1}, {"model": -1, "altloc": "all"}, {"model": None, "altloc": "occupancy"})
+        for kwargs in (kw_all[pick % 4], kw_all[(pick + 2) % 4]):
             ef = list(fields)
             try:
                 first = f.get_structure(extra_fields=ef, include_bonds=S["flags"]["bonds"], **kwargs)
@@ -1092,14 +1112,21 @@ def _oracle_api_impl(S, extra, step):
                 return [("C07/api/read_iter", "read_iter does not return the written lines")]
             _setup_ccd()
             fields = ["atom_id", "b_factor", "occupancy", "charge"]
-            want = _snapshot(PDBFile.read(io.StringIO(text)).get_structure(extra_fields=fields, include_bonds=f["bonds"]))
+            try:
+                want = _snapshot(PDBFile.read(io.StringIO(text)).get_structure(extra_fields=fields, include_bonds=f["bonds"]))
+            except Exception as e:  # noqa: BLE001
+                want = "ERR:" + type(e).__name__       # e.g. InvalidFileError for atom ids whose largest is not the last
             for name, fr in readers.items():
                 try:
                     got = _snapshot(fr.get_structure(None, "first", tuple(reversed(fields)), f["bonds"]))
                 except Exception as e:  # noqa: BLE001
                     got = "ERR:" + type(e).__name__
                 # order of extra_fields decides the order of the annotations only
-                if isinstance(got, str) or {k: got[k] for k in sorted(got)} != {k: want[k] for k in sorted(want)}:
+                if isinstance(got, str) or isinstance(want, str):
+                    same = got == want
+                else:
+                    same = {k: got[k] for k in sorted(got)} == {k: want[k] for k in sorted(want)}
+                if not same:
                     return [(f"C07/api/reader-entry/{name}", f"reading through {name} differs from reading the text: {got if isinstance(got, str) else 'other content'}")]
             step[0] = "copy"
             cp = f0.copy()
@@ -1238,13 +1265,23 @@ def _oracle_alt(case):
         with warnings.catch_warnings():
             warnings.simplefilter("ignore")
             try:
-                st = _read_back(lines, False, altloc=mode)
+                st = _read_back(lines, bool(case["alt"].get("bonds")), altloc=mode)
             except Exception as e:  # noqa: BLE001
                 return [(f"C07/altloc/{mode}/raised-{type(e).__name__}", f"get_structure(altloc={mode!r}) on a well-formed file: {type(e).__name__}: {str(e)[:200]}")]
         got = [(int(i), str(nme)) for i, nme in zip(st.atom_id, st.atom_name)]
         if got != want or st.stack_depth() != case["alt"]["nm"]:
             v.append((f"C07/altloc/{mode}", f"altloc={mode!r} kept {got}, expected {want}"))
             break
+        if case["alt"].get("bonds"):
+            # a CONECT record is a bond only between atoms that are both in the returned structure
+            pos = {}
+            for i, (sr, _) in enumerate(want):
+                pos[sr] = i                       # serial numbers are unique here
+            wb = {tuple(sorted((pos[c_], pos[p_]))) for c_, p_ in case["alt"]["conect"] if c_ in pos and p_ in pos}
+            gb = {(int(min(x, y)), int(max(x, y))) for x, y, _ in st.bonds.as_array()}
+            if gb != wb:
+                v.append((f"C07/altloc/{mode}/bonds", f"altloc={mode!r}: bonds {sorted(gb)}, expected {sorted(wb)} from CONECT {case['alt']['conect']}"))
+                break
     return v
 
 
@@ -1308,6 +1345,34 @@ def _oracle_h36spell(case):
                 cls = "narrow-int" if np.dtype(dt).itemsize <= 2 else np.dtype(dt).name
                 v.append((f"C07/hybrid36/max_hybrid36_number/numpy-{cls}-length",
                           f"max_hybrid36_number(np.{np.dtype(dt).name}({w})) = {got}, expected {want}"))
+    # width 6: every intermediate value must fit a C int -- it does not (num + 10*36**5 overflows above ~1.5e9)
+    for n in (10 ** 6 - 1, 10 ** 6, 10 ** 6 + 26 * 36 ** 5 - 1, 10 ** 6 + 26 * 36 ** 5, 1_572_120_576 + 10 ** 6 - 1, 2 ** 31 - 1):
+        try:
+            t = encode_hybrid36(n, 6)
+            back = decode_hybrid36(t)
+        except (ValueError, OverflowError):
+            back = t = None
+            if n <= 10 ** 6 - 1 + 52 * 36 ** 5:
+                back = "refused"
+        if back != n:
+            v.append(("C07/hybrid36/width-6-int-overflow", f"encode_hybrid36({n}, 6) = {t!r}, decoded {back!r}"))
+            break
+    # strings that are not hybrid-36 numbers must be refused, not decoded to some number
+    for bad, twin in (("A0a", "A16"), ("Aa00", None), ("A-1!", None), ("a0A", None), ("A 12", None)):
+        try:
+            r = decode_hybrid36(bad)
+        except ValueError:
+            continue
+        v.append(("C07/hybrid36/decode-accepts-invalid-characters",
+                  f"decode_hybrid36({bad!r}) = {r}" + (f" = decode_hybrid36({twin!r})" if twin else "")))
+        break
+    for t in ("A\u00e9", "\u0661\u0662"):
+        try:
+            r = decode_hybrid36(t)
+        except ValueError:
+            continue
+        if r != int(t):
+            v.append(("C07/hybrid36/non-ascii", f"decode_hybrid36({t!r}) = {r}"))
     for n, w in case["numbers"]:
         ref = encode_hybrid36(n, w)
         for dn in (np.int32, np.int64, np.uint32):
@@ -1666,8 +1731,19 @@ def gen_alt(rng):
         if nm > 1:
             lines.append("ENDMDL")
     mode = rng.choice(["first", "first", "occupancy", "occupancy", "all"])
-    return {"kind": "altloc", "ops": ["rawline " + hx(l) for l in lines] + [f"readalt {mode} 0", f"readalt {rng.choice(['first', 'occupancy', 'all'])} 0"],
-            "alt": {"recs": [[sr, nme, al, list(k), oc] for sr, nme, al, k, oc in recs], "nm": nm}}
+    conect = []
+    wb = 0
+    if rng.random() < 0.5:
+        # CONECT records between the serial numbers, also naming atoms the altloc filter removes and a serial that does not exist
+        pool = [r[0] for r in recs] + [serial + 3]
+        for _ in range(rng.randint(1, 4)):
+            c_, p_ = rng.sample(pool, 2) if len(pool) > 1 else (pool[0], pool[0])
+            if c_ != p_:
+                conect.append((c_, p_))
+                lines.append(f"CONECT{c_:>5}{p_:>5}")
+        wb = 1
+    return {"kind": "altloc", "ops": ["rawline " + hx(l) for l in lines] + [f"readalt {mode} {wb}", f"readalt {rng.choice(['first', 'occupancy', 'all'])} {wb}"],
+            "alt": {"recs": [[sr, nme, al, list(k), oc] for sr, nme, al, k, oc in recs], "nm": nm, "conect": conect, "bonds": wb}}
 
 
 def h36_numbers(rng, count):
@@ -1711,7 +1787,7 @@ def h36_strings(rng, count):
 
 def cases(rng, tier):
     quick = tier == "quick"
-    n_struct, n_mal, n_raw, n_h36 = (450, 220, 150, 5000) if quick else (6000, 3000, 2000, 60000)
+    n_struct, n_mal, n_raw, n_h36 = (380, 200, 150, 5000) if quick else (6000, 3000, 2000, 60000)
     for _ in range(n_struct):
         S = gen_struct(rng)
         M = len(S["models"])
@@ -1770,6 +1846,32 @@ def oracle_only(rng, tier):
     else:
         for h in (True, False):
             yield {"kind": "oracle-big", "big": True, "struct": _big_struct(100001, h), "extra": {}}
+    # audit 6: regions the model abstains from / the theorems exclude, run on the real code
+    for _ in range(12 if quick else 120):
+        S = gen_struct(rng)
+        S["flags"].update(h36=False, bonds=False)
+        S["bonds"] = []
+        for a in rng.sample(S["atoms"], max(1, len(S["atoms"]) // 2)):
+            a["el"] = ""                                            # the reader guesses the element from the atom name
+            a["name"] = rng.choice(["CA", "N", "O1", "HG", "FE", "ZN", "C12", "1HB"])
+        yield {"kind": "oracle-empty-element", "struct": S, "extra": {}}
+    for _ in range(12 if quick else 120):
+        S = gen_struct(rng)
+        a_, b_ = round(rng.uniform(1, 50), 3), round(rng.uniform(1, 50), 3)
+        S["box"] = rng.choice([[[0.0, 0.0, 0.0], [0.0, b_, 0.0], [0.0, 0.0, a_]],           # a zero vector (no periodicity)
+                               [[0.0, 0.0, 0.0], [0.0, 0.0, 0.0], [0.0, 0.0, 0.0]],
+                               [[a_, 0.0, 0.0], [2 * a_, 0.0, 0.0], [0.0, 0.0, b_]]])       # collinear vectors
+        yield {"kind": "oracle-degenerate-box", "struct": S, "extra": {}}
+    for _ in range(10 if quick else 100):
+        S = gen_struct(rng)
+        S["flags"].update(bonds=False)
+        S["bonds"] = []
+        for a in rng.sample(S["atoms"], max(1, len(S["atoms"]) // 2)):
+            key = rng.choice(["name", "res", "chain", "ins", "el"])
+            a[key] = {"name": rng.choice([" CA", "C A", "CA ", "C\tA"]), "res": rng.choice([" AL", "A L", "AL "]), "chain": " ",
+                      "ins": rng.choice([" ", "\t"]), "el": rng.choice([" C", "C "])}[key]
+        yield {"kind": "oracle-blank-characters", "struct": S, "extra": {}}
+    yield from malformed_files(rng, 10 if quick else 100)
     # non-finite values and boxes: judged by the oracle only
     for _ in range(60 if quick else 600):
         S = gen_struct(rng)
@@ -1812,6 +1914,48 @@ def _one(**kw):
         else:
             a[k] = v
     return {"atoms": [a], "models": [[xyz]], "bonds": [], "flags": fl}
+
+
+def malformed_files(rng, count):
+    """hand-made files outside what the writer produces: the reader must refuse or read what the text says, never guess"""
+    rec = "ATOM  {:>5} {:<4} ALA A{:>4}    {:>8}{:>8}{:>8}{:>6}{:>6}           C  "
+    for _ in range(count):
+        kind = rng.choice(["atoms-before-model", "no-atoms", "numbers"])
+        if kind == "atoms-before-model":
+            lines = [rec.format(1, " N", 1, "1.000", "1.000", "1.000", "1.00", "0.00"), "MODEL        1",
+                     rec.format(2, " CA", 1, "2.000", "1.000", "1.000", "1.00", "0.00"), "ENDMDL", "MODEL        2",
+                     rec.format(2, " CA", 1, "3.000", "1.000", "1.000", "1.00", "0.00"), "ENDMDL"]
+            yield {"kind": "oracle-malformed-file", "lines": lines, "expect": "raise"}
+        elif kind == "no-atoms":
+            yield {"kind": "oracle-malformed-file", "lines": rng.choice([["REMARK   1 nothing"], ["CRYST1   10.000   10.000   10.000  90.00  90.00  90.00 P 1           1"]]),
+                   "expect": "raise"}
+        else:
+            # number spellings float() accepts but the writer never produces (the model abstains from them)
+            xs = [rng.choice(["1e2", "1.5E1", ".5", "5.", "+.25", "1_0.5", "1.234567", "-0.00001", "12345678", "1e-3"]) for _ in range(3)]
+            occ = rng.choice(["1e0", ".5", "1.", "0.333"])
+            lines = [rec.format(1, " N", 1, xs[0], xs[1], xs[2], occ, "1e1")]
+            yield {"kind": "oracle-malformed-file", "lines": lines, "expect": "values", "xyz": xs, "occ": occ}
+
+
+def _oracle_malformed_file(case):
+    from biotite.structure.io.pdb import PDBFile
+    import numpy as np
+    with warnings.catch_warnings():
+        warnings.simplefilter("ignore")
+        f = PDBFile.read(io.StringIO("\n".join(case["lines"]) + "\n"))
+        try:
+            st = f.get_structure(extra_fields=["occupancy", "b_factor"])
+        except Exception as e:  # noqa: BLE001
+            if case["expect"] == "raise":
+                return []
+            return [("C07/reader/refused-valid-number", f"{type(e).__name__}: {e} for fields {case.get('xyz')}")]
+        if case["expect"] == "raise":
+            return [("C07/reader/accepted-malformed-file", f"get_structure() returned {st.stack_depth()}x{st.array_length()} for {case['lines'][:3]}")]
+        want = [float(np.float32(float(t))) for t in case["xyz"]]
+        got = [float(x) for x in st.coord[0, 0]]
+        if got != want or float(st.occupancy[0]) != float(case["occ"]) or float(st.b_factor[0]) != 10.0:
+            return [("C07/reader/number-spelling", f"fields {case['xyz']} / {case['occ']} read as {got} / {float(st.occupancy[0])}")]
+    return []
 
 
 def _big_struct(n, h36):
